@@ -4,6 +4,7 @@
   property theorems are about.
 -/
 import Kopf.Extracted.C09
+import Kopf.Model.C09_Inventory
 namespace Kopf.C09.Tie
 open Kopf.C09
 
@@ -44,6 +45,11 @@ theorem stops_gone : Extracted.stopsGone = treeStopsGone := by decide
 /-- the killer's `finally:` marks the memories before its sweep, `spawn_daemons` obeys the mark (since 1d3a667):
     the variant `stopped_when_operator_exits` / `nothing_spawned_while_exiting` are about -/
 theorem marks_exiting : Extracted.marksExiting = treeMarksExiting := by decide
+
+/-- the view the exit mark goes over (`ResourceMemories.iter_all_daemon_memories`) has every remembered object in it, with
+    or without running daemons: the variant `exit_mark_covers_every_memory` / `nothing_spawned_after_exit_mark` are about,
+    and what the one-pair model's unconditional `exitBegin` presumes -/
+theorem views_every_memory : Extracted.viewsEveryMemory = Inv.treeViewAll := by decide
 
 /-- every sleep of `_timer` / `_daemon` is interrupted by the instance's stopper: what `sleepSuspends` (a set stopper
     never suspends) and with it `stopped_timer_returns` / `stopped_daemon_returns` presume -/
